@@ -30,6 +30,8 @@ pub struct ResScript {
     execd: Vec<(String, Vec<u8>)>,
     sboms: Vec<(u8, Vec<u8>)>,
     plain: Vec<(String, Vec<u8>)>,
+    /// symbolic links the callback creates inside the layer (path, target)
+    links: Vec<(String, String)>,
 }
 
 #[derive(Clone, Copy, Debug, PartialEq)]
@@ -99,6 +101,12 @@ impl<M: MetaT> Scripted<M> {
             let f = layer_path.join(p);
             std::fs::create_dir_all(f.parent().unwrap()).unwrap();
             std::fs::write(f, d).unwrap();
+        }
+        for (p, t) in &rs.links {
+            let f = layer_path.join(p);
+            std::fs::create_dir_all(f.parent().unwrap()).unwrap();
+            let _ = std::fs::remove_file(&f);
+            std::os::unix::fs::symlink(t, f).unwrap();
         }
         let execd: BTreeMap<String, Vec<u8>> = rs.execd.iter().cloned().collect();
         let sboms: BTreeMap<u8, Vec<u8>> = rs.sboms.iter().cloned().collect();
@@ -192,6 +200,9 @@ fn apply_result(l: &mut MLayer, m: MType, rs: &ResScript, types: (bool, bool, bo
     for (p, d) in &rs.plain {
         l.plain.insert(p.clone(), d.clone());
     }
+    for (p, t) in &rs.links {
+        l.links.insert(p.clone(), t.clone());
+    }
 }
 
 /// returns (Ok(()) | Err(()), expected callback log)
@@ -257,7 +268,7 @@ fn model_handle(l: &mut MLayer, path: &Path, m: MType, s: &Script) -> (Result<()
 }
 
 fn implicit_of(l: &MLayer, layer_path: &Path) -> Vec<Implicit> {
-    let has = |d: &str| l.plain.keys().any(|p| p.starts_with(&format!("{d}/")));
+    let has = |d: &str| l.plain.keys().chain(l.links.keys()).any(|p| p.starts_with(&format!("{d}/")));
     let p = |d: &str| layer_path.join(d).as_os_str().as_bytes().to_vec();
     let mut v = vec![];
     if has("bin") {
@@ -422,7 +433,8 @@ fn res_json(r: &Option<ResScript>) -> Value {
         Some(r) => json!({"metadata": r.metadata.to_json(), "env": r.env.as_ref().map(|e| entries_to_json(e)),
             "execd": r.execd.iter().map(|(n, d)| json!([n, bytes_to_json(d)])).collect::<Vec<_>>(),
             "sboms": r.sboms.iter().map(|(f, d)| json!([f, bytes_to_json(d)])).collect::<Vec<_>>(),
-            "plain": r.plain.iter().map(|(n, d)| json!([n, bytes_to_json(d)])).collect::<Vec<_>>()}),
+            "plain": r.plain.iter().map(|(n, d)| json!([n, bytes_to_json(d)])).collect::<Vec<_>>(),
+            "links": r.links.iter().map(|(n, t)| json!([n, t])).collect::<Vec<_>>()}),
     }
 }
 fn res_from_json(v: &Value) -> Option<ResScript> {
@@ -436,6 +448,7 @@ fn res_from_json(v: &Value) -> Option<ResScript> {
         execd: nb(&v["execd"]),
         sboms: v["sboms"].as_array().unwrap().iter().map(|p| (p[0].as_u64().unwrap() as u8, json_to_bytes(&p[1]))).collect(),
         plain: nb(&v["plain"]),
+        links: v["links"].as_array().map(|a| a.iter().map(|p| (p[0].as_str().unwrap().to_string(), p[1].as_str().unwrap().to_string())).collect()).unwrap_or_default(),
     })
 }
 
@@ -481,7 +494,11 @@ fn res_strategy() -> impl Strategy<Value = Option<ResScript>> {
         proptest::collection::vec((0u8..3, small_bytes()), 0..4),
         proptest::collection::vec((prop_oneof![Just("file.txt".to_string()), Just("bin/tool".to_string()), Just("lib/libx.so".to_string()), Just("include/x.h".to_string()), Just("pkgconfig/x.pc".to_string()), Just("data/n/deep".to_string())], small_bytes()), 0..3),
     )
-        .prop_map(|(metadata, env, execd, sboms, plain)| ResScript { metadata, env, execd, sboms, plain });
+        .prop_map(|(metadata, env, execd, sboms, plain)| {
+            // one result in five also leaves a symbolic link (dangling or not) in the layer
+            let links = if (plain.len() + execd.len() + sboms.len()) % 5 == 1 { vec![("current".to_string(), if execd.is_empty() { "does/not/exist".to_string() } else { "file.txt".to_string() })] } else { vec![] };
+            ResScript { metadata, env, execd, sboms, plain, links }
+        });
     proptest::option::weighted(0.9, r)
 }
 
@@ -499,13 +516,35 @@ fn script_strategy() -> impl Strategy<Value = Script> {
 fn history_strategy(max_builds: usize) -> impl Strategy<Value = Vec<Op>> {
     let handle = (0u8..NAMES.len() as u8, mtype_strategy(), script_strategy()).prop_map(|(name, m, script)| Op::Handle { name, m, script });
     let build = proptest::collection::vec(handle, 1..4);
-    proptest::collection::vec(build, 1..max_builds).prop_map(|builds| {
+    (proptest::collection::vec(build, 1..max_builds), any::<u64>()).prop_map(|(builds, salt)| {
         let mut h = vec![];
         for (i, b) in builds.into_iter().enumerate() {
             if i > 0 {
                 h.push(Op::Restore);
             }
             h.extend(b);
+        }
+        // neighbour results: every other update returns the env the layer (approximately) has, with one process type or
+        // one scope removed and everything else unchanged
+        let mut last_env: BTreeMap<u8, Vec<EnvEntry>> = BTreeMap::new();
+        for (k, op) in h.iter_mut().enumerate() {
+            if let Op::Handle { name, script, .. } = op {
+                let key = *name % NAMES.len() as u8;
+                if let (Some(prev), Some(upd)) = (last_env.get(&key), script.update.as_mut()) {
+                    if (salt >> (k % 60)) & 1 == 1 && !prev.is_empty() {
+                        let victim = prev[(salt as usize + k) % prev.len()].scope.clone();
+                        upd.env = Some(prev.iter().filter(|e| e.scope != victim).cloned().collect());
+                    }
+                }
+                let written = match script.strategy {
+                    Strat::Update => script.update.as_ref().or(script.create.as_ref()),
+                    Strat::Keep => None,
+                    _ => script.create.as_ref(),
+                };
+                if let Some(w) = written {
+                    last_env.insert(key, w.env.clone().unwrap_or_default());
+                }
+            }
         }
         h
     })
@@ -522,8 +561,9 @@ fn reduced_alphabet() -> Vec<Op> {
         execd: vec![("p".into(), b"#!".to_vec())],
         sboms: vec![(2, b"{}".to_vec())],
         plain: vec![("bin/tool".into(), b"x".to_vec())],
+        links: vec![("current".into(), "does/not/exist".into())],
     };
-    let plain = ResScript { metadata: MetaVal::Generic(TV::table(vec![("other", TV::Int(1))])), env: None, execd: vec![], sboms: vec![], plain: vec![("file.txt".into(), b"y".to_vec())] };
+    let plain = ResScript { metadata: MetaVal::Generic(TV::table(vec![("other", TV::Int(1))])), env: None, execd: vec![], sboms: vec![], plain: vec![("file.txt".into(), b"y".to_vec())], links: vec![] };
     let mut ops = vec![];
     for m in [MType::V1, MType::V2] {
         for strategy in [Strat::Keep, Strat::Update, Strat::Recreate, Strat::Err] {
@@ -652,7 +692,7 @@ pub fn errorless_handle_strategy(nnames: u8) -> impl Strategy<Value = Op> {
         if script.migrate == Mig::Err {
             script.migrate = Mig::Recreate;
         }
-        let fallback = ResScript { metadata: MetaVal::V1("fallback".into()), env: None, execd: vec![], sboms: vec![], plain: vec![] };
+        let fallback = ResScript { metadata: MetaVal::V1("fallback".into()), env: None, execd: vec![], sboms: vec![], plain: vec![], links: vec![] };
         if script.create.is_none() {
             script.create = Some(fallback.clone());
         }
